@@ -10,6 +10,8 @@ import Bolt.Driver.Check
 import Bolt.Driver.Reencode
 import Bolt.Driver.Compact
 import Bolt.Driver.Flock
+import Bolt.Driver.Node
+import Bolt.Driver.BTree
 open Bolt.Driver
 
 def main (args : List String) : IO UInt32 := do
@@ -23,6 +25,8 @@ def main (args : List String) : IO UInt32 := do
   | ["batch"] => cmdBatch; return 0
   | ["versions"] => cmdVersions; return 0
   | ["flock"] => cmdFlock; return 0
+  | ["node"] => cmdNode; return 0
+  | ["btree"] => cmdBTree; return 0
   | ["compactmodel", path, os, limit] => cmdCompactModel path (parseNat os) (parseNat limit); return 0
   | ["reencode", path, os] => cmdReencode path (parseNat os); return 0
   | ["checkmodel", path, os, kind] => cmdCheckModel path (parseNat os) kind; return 0
